@@ -183,7 +183,9 @@ META.update({
                 "within the bound; every representation is built as the real container, its accessors compared with "
                 "Logical(c), and one representative of every function family required to be bit-identical on every "
                 "representation, wrapper, output container and output path; WriteMapOK / SetOneOK / SortOK / DerivedAgree cover "
-                "the representation as an output buffer, the mutable accessors, in-place sorting and the option / cast views." + ENUM,
+                "the representation as an output buffer, the mutable accessors, in-place sorting and the option / cast views; "
+                "DynForwards covers the dynamic layer (a named, dtype-tagged Polars Series forwarding to the static kernels); "
+                "ContainersProof.tla proves the ring / strided slot-to-cell maps injective for every parameter." + ENUM,
         "note": NOTE + " std / ndarray / Polars internals trusted; one known finding (fast-path input with a Polars output container).",
         "design": "DESIGN.md section 6 C07",
     },
